@@ -236,8 +236,27 @@ pub mod a {
 '''
 
 
+PRELUDE_MOD = '''#![allow(non_camel_case_types, non_snake_case, dead_code, unused_variables, unused_mut, unused_imports, private_interfaces)]
+use state_machines::state_machine;
+// states called like the prelude's Option constructors (they compile on the pinned tree: the expansion spells out ::core paths)
+state_machine! { name: Link, initial: None, dynamic: true, states: [None, Some(u32), Idle],
+    events { up { guards: [ok], transition: { from: None, to: Some } } down { transition: { from: [Some, Idle], to: None } } park { transition: { from: Some, to: Idle } } } }
+impl<C, S> Link<C, S> { fn ok(&self, _c: &C) -> bool { true } }
+pub fn drive() -> (bool, bool, &'static str) {
+    let mut d = DynamicLink::new(1u8);
+    let a = d.some_data().is_none();
+    let _ = d.handle(LinkEvent::Up);
+    let b = d.set_some_data(5).is_ok() && d.some_data_mut().is_some();
+    (a, b, d.current_state())
+}
+pub fn typed(m: Link<u8, None>) -> bool { match m.up() { Ok(n) => *n.some_data() == 0 && n.state_data_some().is_some(), Err(_) => false } }
+'''
+
+
 def k3_types(ctx):
-    mods, dsls = [('tywrapped', WRAPPED_MOD)], {'tywrapped': 'the definition stamped out by macro_rules! with every identifier passed in (module tywrapped)'}
+    mods = [('tywrapped', WRAPPED_MOD), ('typrelude', PRELUDE_MOD)]
+    dsls = {'tywrapped': 'the definition stamped out by macro_rules! with every identifier passed in (module tywrapped)',
+            'typrelude': 'name: Link, initial: None, dynamic: true, states: [None, Some(u32), Idle], ... (module typrelude)'}
     for i, case in enumerate(TYPE_CASES):
         for is_async in (False, True):
             nm, src, dsl = types_module(i, case, is_async)
@@ -249,7 +268,7 @@ def k3_types(ctx):
     problems, bad = [], {}
     for dg in diags:
         for (fn, ln) in dg['locs']:
-            m = re.match(r'src/(ty\d+[as]|tywrapped)\.rs', fn)
+            m = re.match(r'src/(ty\d+[as]|tywrapped|typrelude)\.rs', fn)
             if m:
                 bad.setdefault(m.group(1), []).append('%s %s' % (dg['code'], dg['msg'][:200]))
                 break
@@ -257,7 +276,7 @@ def k3_types(ctx):
         problems.append({'dsl': dsls[nm], 'what': 'definition with compound context/data/payload types does not compile as documented: ' + msgs[0]})
     if rc != 0 and not diags:
         problems.append({'dsl': None, 'what': 'cargo failed: ' + se[-500:]})
-    return {'ok': True, 'n': len(mods), 'problems': problems, 'sample': dsls[mods[1][0]]}
+    return {'ok': True, 'n': len(mods), 'problems': problems, 'sample': dsls[mods[2][0]]}
 
 # ---------------------------------------------------------------- C17: #![no_std], zero-sized markers, machine = context
 
